@@ -603,14 +603,60 @@ func (x *c02ctx) r10() {
 		}
 		n++
 		guarded := false
-		ast.Inspect(cc.List[0], func(m ast.Node) bool {
-			if u, ok := m.(*ast.UnaryExpr); ok && u.Op == token.NOT {
-				if c, ok := unparen(u.X).(*ast.CallExpr); ok && isCallTo(info, c, "interp.isInterface") {
-					guarded = true
+		negIface := func(e ast.Node) bool {
+			found := false
+			ast.Inspect(e, func(m ast.Node) bool {
+				if u, ok := m.(*ast.UnaryExpr); ok && u.Op == token.NOT {
+					if c, ok := unparen(u.X).(*ast.CallExpr); ok && isCallTo(info, c, "interp.isInterface") {
+						found = true
+					}
+				}
+				return true
+			})
+			return found
+		}
+		if negIface(cc.List[0]) {
+			guarded = true
+		}
+		// ... or through a helper of the package: a conjunct of the condition calls a function whose
+		// body is a single return of a conjunction that contains !isInterface(...)
+		var conj func(e ast.Expr, out *[]ast.Expr)
+		conj = func(e ast.Expr, out *[]ast.Expr) {
+			if b, ok := unparen(e).(*ast.BinaryExpr); ok && b.Op == token.LAND {
+				conj(b.X, out)
+				conj(b.Y, out)
+				return
+			}
+			*out = append(*out, unparen(e))
+		}
+		var cs []ast.Expr
+		conj(cc.List[0], &cs)
+		for _, c := range cs {
+			call, ok := c.(*ast.CallExpr)
+			if !ok {
+				continue
+			}
+			f, ok := calleeOf(info, call).(*types.Func)
+			if !ok || f.Pkg() != ic.Pk.Types {
+				continue
+			}
+			for _, fi := range ic.F {
+				if fi.Obj != types.Object(f) || fi.Decl.Body == nil || len(fi.Decl.Body.List) != 1 {
+					continue
+				}
+				if rs, ok := fi.Decl.Body.List[0].(*ast.ReturnStmt); ok && len(rs.Results) == 1 {
+					var hs []ast.Expr
+					conj(rs.Results[0], &hs)
+					for _, h := range hs {
+						if negIface(h) {
+							if _, isNot := h.(*ast.UnaryExpr); isNot {
+								guarded = true
+							}
+						}
+					}
 				}
 			}
-			return true
-		})
+		}
 		r.Check(guarded, "R02.10", fmt.Sprintf("cfg/case:unaryExpr/retyped-to-destination#%d/not-an-interface", n), ic.pos(cc.Pos()), "the shortcut is not taken for an interface-typed destination",
 			"this shortcut gives a unary operator node the type of its destination ("+typFrom+") without excluding interface types: the generators of the unary operators have no case for an interface kind, so no closure is installed and `var e interface{}; e = -x` (or return -x from a function returning interface{}) silently ends the enclosing function")
 		return true
@@ -1486,5 +1532,95 @@ func (x *c02ctx) r2x20() {
 	})
 	if n < 2 {
 		r.Errorf("R02.20: only %d assignments of the node's frame location found in the binaryExpr case of cfg", n)
+	}
+}
+
+func init() {
+	ruleText["R02.21"] = "the result of an operation is stored directly at the location of its destination only when the destination has one: in the cases of cfg for binary and unary expressions, the branch of the result-location switch that takes the type and the frame index of the assignment's destination (n.typ = dest.typ, n.findex = dest.findex) has a condition that excludes the blank identifier - it calls isBlank, or an in-package function that calls it - the blank identifier has no location nor type of its own when the operation is compiled"
+}
+
+// r2x21: D135, D136. `_ = x == 2` stored a bool into a slot typed int; `_ = -x` dereferenced the
+// nil type of the blank destination (a regression of D35).
+func (x *c02ctx) r2x21() {
+	ic, r := x.ic, x.r
+	info := ic.Info
+	cfgFn := ic.fn(r, "Interpreter.cfg")
+	findexFld := ic.field("node", "findex")
+	if cfgFn == nil || findexFld == nil {
+		return
+	}
+	// in-package functions that call isBlank
+	viaBlank := []string{"interp.isBlank"}
+	for _, name := range sortedKeys(ic.F) {
+		fi := ic.F[name]
+		if fi.Decl.Body != nil && fi.Obj != nil && name != "isBlank" && len(callsIn(info, fi.Decl.Body, false, "interp.isBlank")) > 0 {
+			viaBlank = append(viaBlank, canonKey(fi.Obj.Pkg(), shortKey(objKey(fi.Obj))))
+		}
+	}
+	n := 0
+	ast.Inspect(cfgFn.Decl.Body, func(q ast.Node) bool {
+		cc, ok := q.(*ast.CaseClause)
+		if !ok {
+			return true
+		}
+		labels := kindLabels(ic, cc)
+		isOp := false
+		for _, l := range labels {
+			if l == "binaryExpr" || l == "unaryExpr" {
+				isOp = true
+			}
+		}
+		if !isOp {
+			return true
+		}
+		// the branches of a tagless switch inside the case that copy another node's findex into n.findex
+		ast.Inspect(cc, func(z ast.Node) bool {
+			br, ok := z.(*ast.CaseClause)
+			if !ok || br == cc || len(br.List) != 1 {
+				return true
+			}
+			copies := false
+			for _, st := range br.Body {
+				as, ok := st.(*ast.AssignStmt)
+				if !ok || len(as.Lhs) != 1 || len(as.Rhs) != 1 {
+					continue
+				}
+				l, okl := unparen(as.Lhs[0]).(*ast.SelectorExpr)
+				rr, okr := unparen(as.Rhs[0]).(*ast.SelectorExpr)
+				if okl && okr && selField(info, l) == findexFld && selField(info, rr) == findexFld {
+					copies = true
+				}
+			}
+			if !copies {
+				return true
+			}
+			// only the assignment shortcut (its condition mentions the assignStmt kind)
+			mentionsAssign := false
+			ast.Inspect(br.List[0], func(y ast.Node) bool {
+				if id, ok := y.(*ast.Ident); ok {
+					if c, ok := info.Uses[id].(*types.Const); ok && c.Name() == "assignStmt" {
+						mentionsAssign = true
+					}
+				}
+				return true
+			})
+			if !mentionsAssign {
+				return true
+			}
+			n++
+			kind := labels[0]
+			for _, l := range labels {
+				if l == "binaryExpr" || l == "unaryExpr" {
+					kind = l
+				}
+			}
+			r.Check(len(callsIn(info, br.List[0], true, viaBlank...)) > 0, "R02.21", "cfg/case:"+kind+"/direct-store-shortcut/not-for-the-blank-identifier", ic.pos(br.Pos()), "the condition of the shortcut excludes the blank identifier",
+				"the "+kind+" case of cfg takes the type and the location of the assignment's destination under "+types.ExprString(br.List[0])+", which does not exclude the blank identifier: `_` has no location nor type of its own when the operation is compiled, so `x := 1; _ = x == 2` stores a bool into a slot typed int (reflect.Value.SetBool on int Value) and `_ = -x` dereferences a nil type in the compiler")
+			return true
+		})
+		return true
+	})
+	if n < 2 {
+		r.Errorf("R02.21: only %d direct-store shortcuts found in the binaryExpr/unaryExpr cases of cfg (one each expected)", n)
 	}
 }
